@@ -582,3 +582,44 @@ func ZZH_C09_Merged_SetCellText()   { zzhMergedOp(4) }
 func ZZH_C09_Merged_MergeAgain()    { zzhMergedOp(5) }
 func ZZH_C09_Merged_Unmerge()       { zzhMergedOp(6) }
 func ZZH_C09_Merged_MergeVertical() { zzhMergedOp(7) }
+
+// MergeCellsRange on a plain table: a rectangle inside the table is merged (every row of it
+// horizontally, its first column vertically), anything else is rejected without a trace.
+func ZZH_C09_MergeRange() {
+	rows, cols := zzhShape()
+	t, m := zzhBuild(rows, cols)
+	before := zzvDeepCopy(t).(*Table)
+	r0, r1, c0, c1 := zzvInt(), zzvInt(), zzvInt(), zzvInt()
+	err := t.MergeCellsRange(r0, r1, c0, c1)
+	if err != nil {
+		zzvAssert(zzvSameShape(t, before), "merge range: a rejected request leaves the table exactly as it was")
+		zzvReach("rejected")
+		return
+	}
+	// (a degenerate request that changes nothing may be accepted: the statement only asks for
+	// "error and unchanged" or "success and well-formed")
+	inside := r0 >= 0 && r1 < rows && r0 <= r1 && c0 >= 0 && c1 < cols && c0 <= c1
+	zzvAssert(zzhGridOK(t), "merge range: the table is a well-formed grid afterwards")
+	zzvAssert(zzhCellsOwnState(t), "merge range: no two cells share mutable state afterwards")
+	zzvAssert(len(t.Rows) == rows, "merge range: the number of rows is unchanged")
+	// cells outside the rectangle keep their text (read in grid coordinates)
+	ok := true
+	for i := 0; i < rows; i++ {
+		col := 0
+		for j := range t.Rows[i].Cells {
+			cell := &t.Rows[i].Cells[j]
+			inside := i >= r0 && i <= r1 && col >= c0 && col <= c1
+			if !inside {
+				ok = zzvAnd(ok, zzhCellText(cell) == m[i][col])
+			}
+			col += zzhSpanOf(cell)
+		}
+	}
+	zzvAssert(ok, "merge range: every cell outside the merged rectangle holds what the model predicts")
+	if inside {
+		zzvAssert(zzhCellText(&t.Rows[r0].Cells[c0]) == m[r0][c0], "merge range: the top-left cell keeps its text")
+		zzvReach("merged")
+	} else {
+		zzvAssert(zzvSameShape(t, before), "merge range: an accepted request outside the table changes nothing")
+	}
+}
